@@ -17,6 +17,9 @@ import (
 	"google.golang.org/grpc/status"
 	"google.golang.org/protobuf/encoding/protojson"
 	"google.golang.org/protobuf/proto"
+	"google.golang.org/protobuf/types/known/anypb"
+	"google.golang.org/protobuf/types/known/durationpb"
+	"google.golang.org/protobuf/types/known/timestamppb"
 
 	pb "github.com/buchgr/bazel-remote/v2/genproto/build/bazel/remote/execution/v2"
 	"github.com/buchgr/bazel-remote/v2/verifdrv/vlib"
@@ -69,6 +72,45 @@ func c11Variants() []c11Variant {
 			ar.StdoutDigest = &pb.Digest{Hash: emptySha}
 			ar.OutputFiles[0].Digest = &pb.Digest{Hash: emptySha}
 		}},
+	}
+	// execution metadata: every subset of {worker, two timestamps, virtual
+	// duration, auxiliary metadata}; everything the client sent must come back
+	for m := 0; m < 32; m++ {
+		m := m
+		vs = append(vs, c11Variant{fmt.Sprintf("valid-metadata-subset-%05b", m), true, func(ar *pb.ActionResult) {
+			md := &pb.ExecutedActionMetadata{}
+			if m&1 != 0 {
+				md.Worker = "worker-9"
+			}
+			if m&2 != 0 {
+				md.QueuedTimestamp = &timestamppb.Timestamp{Seconds: 1700000000, Nanos: 1}
+			}
+			if m&4 != 0 {
+				md.ExecutionCompletedTimestamp = &timestamppb.Timestamp{Seconds: 1700000100, Nanos: 999999999}
+			}
+			if m&8 != 0 {
+				md.VirtualExecutionDuration = &durationpb.Duration{Seconds: 12, Nanos: 500}
+			}
+			if m&16 != 0 {
+				md.AuxiliaryMetadata = []*anypb.Any{{TypeUrl: "type.googleapis.com/google.protobuf.Duration", Value: []byte{0x08, 0x05}}}
+			}
+			ar.ExecutionMetadata = md
+		}})
+	}
+	// each optional part of the full message dropped on its own
+	for di, drop := range []func(ar *pb.ActionResult){
+		func(ar *pb.ActionResult) { ar.OutputFiles = nil },
+		func(ar *pb.ActionResult) { ar.OutputDirectories = nil },
+		func(ar *pb.ActionResult) { ar.OutputFileSymlinks = nil },
+		func(ar *pb.ActionResult) { ar.OutputSymlinks = nil },
+		func(ar *pb.ActionResult) { ar.OutputDirectorySymlinks = nil },
+		func(ar *pb.ActionResult) { ar.StdoutDigest = nil },
+		func(ar *pb.ActionResult) { ar.StderrDigest = nil },
+		func(ar *pb.ActionResult) { ar.ExitCode = 0 },
+		func(ar *pb.ActionResult) { ar.OutputFiles[0].IsExecutable = false; ar.OutputFiles[1].IsExecutable = true },
+		func(ar *pb.ActionResult) { ar.OutputFiles[1].NodeProperties = &pb.NodeProperties{Properties: []*pb.NodeProperty{{Name: "n", Value: "v"}}} },
+	} {
+		vs = append(vs, c11Variant{fmt.Sprintf("valid-part-dropped-%d", di), true, drop})
 	}
 	badDigests := []struct {
 		n string
